@@ -1086,14 +1086,12 @@ impl ExtensionStore {
                 let with_extender = extension.clone().with_extender(complex.clone());
                 let existing_extension = sources.get(&complex);
                 if let Some(existing_extension) = existing_extension.cloned() {
-                    sources.get_mut(&complex).replace(
-                        &mut MergedExtension::merge(existing_extension.clone(), with_extender)
-                            .unwrap(),
+                    sources.insert(
+                        complex.clone(),
+                        MergedExtension::merge(existing_extension, with_extender).unwrap(),
                     );
                 } else {
-                    sources
-                        .get_mut(&complex)
-                        .replace(&mut with_extender.clone());
+                    sources.insert(complex.clone(), with_extender.clone());
 
                     for component in complex.components.clone() {
                         if let ComplexSelectorComponent::Compound(component) = component {
@@ -1122,6 +1120,10 @@ impl ExtensionStore {
                 // todo: evaluate whether we could get away with swap_remove
                 sources.shift_remove(&extension.extender);
             }
+
+            // `sources` is a copy of the map stored for this target: store the updated copy
+            self.extensions
+                .insert(extension.target.clone().unwrap(), sources);
         }
         additional_extensions
     }
